@@ -1,12 +1,15 @@
 (* C14 property theorems: statements only, each closed by `exact`, Print Assumptions beneath.
    Part A: set order in the converter; part B: per-match state on rule singletons / pass objects.
-   Not covered by a theorem (measured by the direct oracle of harness/c14.py only): the process-wide
-   Opset cache, the swapped pattern builder, globals snapshot at decoration, to_model_proto cloning. *)
+   Part D: script-time constants / later calls (capture disciplines, Determinism/Snapshot.v).
+   Not covered by a theorem (measured by the direct oracle of harness/c14.py only): the swapped pattern
+   builder, to_model_proto cloning. *)
 From Coq Require Import List String Permutation.
 Require Import OV.Determinism.Perm OV.Determinism.PermProofs.
 Require Import OV.Determinism.MustDef OV.Determinism.MustDefProofs OV.Determinism.RuleCfgsOk OV.Gen.RuleCfgs.
 Require Import OV.Determinism.KeyedCache OV.Determinism.KeyedCacheProofs OV.Determinism.EvaluatorCacheOk OV.Gen.EvaluatorCache.
-From Coq Require Import Arith.
+Require Import OV.Determinism.Snapshot OV.Determinism.SnapshotProofs.
+Require Import OV.Determinism.ProcessState OV.Determinism.ProcessStateProofs.
+From Coq Require Import Arith ZArith.
 Import ListNotations.
 
 (* A. a site that lists a set with sorted(...) emits the same thing for every enumeration of the set
@@ -122,3 +125,81 @@ Theorem C14_source_memos_history_independent : forall m, In m EvaluatorCache.mem
     answer_after (list_eq_dec Nat.eq_dec) (project (m_key_params m)) f h x = f x.
 Proof. exact source_memos_history_independent. Qed.
 Print Assumptions C14_source_memos_history_independent.
+
+(* B. the rule-set object: RewriteRuleSet.apply_to_model as read on 2026-09-26 re-initialises `_used_value_names` but not
+   `_value_name_counter`; the faithful mini model is rejected by the analysis and one earlier application changes the
+   values (generated names) of the next one -- replayed on the real rewriter (m_rw_materialize after m_rw_materialize_b) *)
+Theorem C14_ruleset_counter_refuted : rule_ok ruleset_as_read = false /\
+  exists (h : list (oracle * nat * trace)) orc fuel,
+    observable (run_match orc fuel (r_check ruleset_as_read) (r_rewrite ruleset_as_read) (run_history ruleset_as_read h ruleset_init) []) <>
+    observable (run_match orc fuel (r_check ruleset_as_read) (r_rewrite ruleset_as_read) ruleset_init []).
+Proof. exact ruleset_counter_refuted. Qed.
+Print Assumptions C14_ruleset_counter_refuted.
+
+(* B. repaired model (counter re-initialised per model): accepted, hence history independent.  What the *source* says now is
+   Gen/RuleCfgs.ruleset_passes, judged by the harness on every run (RuleCfgsOk.ruleset_passes_history_independent_if_ok) *)
+Theorem C14_ruleset_counter_fixed : rule_ok ruleset_reset = true /\
+  forall (h : list (oracle * nat * trace)) (s0 : state) orc fuel tr,
+    observable (run_match orc fuel (r_check ruleset_reset) (r_rewrite ruleset_reset) (run_history ruleset_reset h s0) tr) =
+    observable (run_match orc fuel (r_check ruleset_reset) (r_rewrite ruleset_reset) s0 tr).
+Proof. exact ruleset_counter_fixed. Qed.
+Print Assumptions C14_ruleset_counter_fixed.
+
+(* D. "mutating globals afterwards changes neither the generated protos nor later calls".  Full statement for a capture
+   discipline c: Snapshot.later_results_fixed c (any sequence of rebindings and in-place mutations of the namespace after
+   decoration; bodies that only look names up).  It holds for Deep (values captured when the decorator runs): *)
+Theorem C14_later_results_fixed : later_results_fixed Deep.
+Proof. exact deep_fixed. Qed.
+Print Assumptions C14_later_results_fixed.
+
+(* D. it is false for AsRead -- eager calls as read on 2026-09-26 execute the python function with its live globals -- already
+   for a single rebinding (witness: SCALE = 99 after decoration; replayed on the real code for every kind of global) *)
+Theorem C14_later_results_as_read_refuted : ~ later_results_fixed_under_rebinding AsRead.
+Proof. exact as_read_refuted. Qed.
+Print Assumptions C14_later_results_as_read_refuted.
+
+(* D. Shallow (a copied namespace dictionary; a tensor wrapping the caller's numpy array): proved for rebinding only
+   (C14_later_results_shallow_partial; the full statement is later_results_fixed Shallow) and refuted for in-place mutation *)
+Theorem C14_later_results_shallow_partial : later_results_fixed_under_rebinding Shallow.
+Proof. exact shallow_fixed_under_rebinding. Qed.
+Print Assumptions C14_later_results_shallow_partial.
+
+Theorem C14_later_results_shallow_refuted : ~ later_results_fixed Shallow.
+Proof. exact shallow_in_place_refuted. Qed.
+Print Assumptions C14_later_results_shallow_refuted.
+
+(* D. until something is mutated every discipline denotes the same function: eager call = generated proto at decoration time *)
+Theorem C14_captures_agree_at_decoration : forall c (b : body) (st : store) (x : Z),
+  denote c (decorate b st) st x = denote Deep (decorate b st) st x.
+Proof. exact all_agree_at_decoration. Qed.
+Print Assumptions C14_captures_agree_at_decoration.
+
+(* D. the table the harness uses to decide, per kind of global, which discipline the implementation follows *)
+Theorem C14_capture_prediction_table : forall c,
+  (predict c true = true -> later_results_fixed_under_rebinding c) /\
+  (predict c true = false -> ~ later_results_fixed_under_rebinding c) /\
+  (predict c false = true -> later_results_fixed c) /\
+  (predict c false = false -> ~ later_results_fixed c).
+Proof. exact predict_spec. Qed.
+Print Assumptions C14_capture_prediction_table.
+
+(* C. process-wide state in general: an operation whose only access to state that outlives it is through completely keyed memo
+   tables of functions gives the same result after every history of such operations as in a fresh process.  (State the operation
+   re-initialises before reading it: part B.)  The tables found in the sources -- Opset.cache keyed by (cls, domain, version),
+   functools caches -- are listed in Gen/ProcessStateSites.v and checked by the harness on every run. *)
+Theorem C14_keyed_process_state_history_independent :
+  forall (T X K V R : Type) (T_eq_dec : forall a b : T, {a = b} + {a <> b}) (K_eq_dec : forall a b : K, {a = b} + {a <> b})
+         (k : T -> X -> K) (f : T -> X -> V),
+  all_keyed_completely k f -> process_history_independent (R := R) T_eq_dec K_eq_dec k f.
+Proof. exact keyed_process_state_history_independent. Qed.
+Print Assumptions C14_keyed_process_state_history_independent.
+
+Theorem C14_incompletely_keyed_state_refuted :
+  ~ process_history_independent (R := string * nat) unit_eq_dec string_dec bad_k bad_f.
+Proof. exact incompletely_keyed_state_refuted. Qed.
+Print Assumptions C14_incompletely_keyed_state_refuted.
+
+Theorem C14_keyed_site_complete : forall s kp fp, ps_discipline s = KeyedBy kp fp -> site_controlled s = true ->
+  forall (V : Type) (g : env -> V), depends_only_on g fp -> factors_through_key (project kp) g.
+Proof. exact keyed_site_complete. Qed.
+Print Assumptions C14_keyed_site_complete.
